@@ -28,6 +28,11 @@ pub fn deserialize(data: Bytes) -> Result<RtmpMessage, MessageDeserializationErr
     let mut cursor = Cursor::new(data);
     let mut arguments = rml_amf0::deserialize(&mut cursor)?;
 
+    // A command always has a name, transaction id, and command object
+    if arguments.len() < 3 {
+        return Err(MessageDeserializationError::InvalidMessageFormat);
+    }
+
     let command_name: String;
     let transaction_id: f64;
     let command_object: Amf0Value;
